@@ -51,8 +51,9 @@ CLAIMS = {
              "saturation side condition of the calculate_score theorem there (C03_calculateScore_eq_alignScore_short); companion file C03_Entry: on a tight window (what the prefilters "
              "and greedy scans produce, C02_Greedy) the last reported index is the window's last position (tight_last), so calculate_score returns the scheme's value there with no "
              "side condition left (C03_tight_score), and at the fuzzy_match entry point the contiguous shortcut and the matrix path return the scheme's value of the alignment "
-             "they report (C03_fuzzy_entry_ascii / _unicode: needles of 2 to 2519 characters, prefix preference off). Not theorems: that the greedy fallback's call site (scratch layout too large for the slab) passes such a window - the scans are proved to produce tight windows in "
-             "C02_Greedy but the composition is not stated for the score -, and the equality of the compressed u16 matrix with the recurrence - both are the correspondence (implementation = model on every case), and the oracle "
+             "they report (C03_fuzzy_entry_ascii / _unicode: needles of 2 to 2519 characters, prefix preference off); companion file C03_Paths: the substring matchers "
+             "(C03_substring_ascii_score / _unicode_score), the greedy matcher (C03_greedy_ascii_score / _unicode_score) and hence EVERY path of fuzzy_match - contiguous shortcut, "
+             "matrix, greedy fallback - return the scheme's value of the alignment they report (C03_fuzzy_all_paths_ascii / _unicode). Not theorems: one-character needles and the fuzzy_match_greedy entry dispatch at the score level (their witness theorems are in C02), and the equality of the compressed u16 matrix with the recurrence - both are the correspondence (implementation = model on every case), and the oracle "
              "evaluates score = scheme on the reported indices for all six algorithms on every case; the u16 saturation for needles > 2520 characters is a KNOWN-FINDING."),
     "C04": dict(
         technique="Lean 4 theorems (early-exit soundness) + brute-force optimum oracle + model-equals-recurrence correspondence",
